@@ -58,7 +58,8 @@ ASSUMPTIONS = [
     'as an observation, not a violation',
     'IEEE-754 rounding of the real code is not verified: the theorems are about the same expression trees over the reals; '
     'the Float instance of those trees is compared bit for bit with CPython on every run',
-    'np.dot (visc) goes through a BLAS kernel whose summation uses FMA: visc is compared to 1e-14 relative, not bitwise',
+    'np.dot (visc) goes through a BLAS kernel; its order on this platform (a chain of fused multiply-adds) is modelled with an exact '
+    'integer-arithmetic FMA and visc is bit-identical here; a different BLAS build may sum differently, so 1e-14 relative is accepted',
 ]
 TRUSTED_EXTRA = ['harness/translate/thermo.py for the step "Float tree -> real tree" (same generated definition, different carrier)',
                  'Lean Float.exp/sqrt/pow and CPython math call the same libm (checked by the bit-for-bit facet itself)']
@@ -681,9 +682,14 @@ def run(ctx, scale=1.0, oracle_only=False):
             lines += ['chainwf %s' % chain_text(ch) for nm, ch, v in preqs]
             out = core.run_driver('drv_c14', lines)
             nb = 0
+            nv = [0, 0]
             for k, ((fn, args), a, b) in enumerate(zip(reqs, impl, out)):
                 f1['cases'] += 1
+                # visc: np.dot is modelled by the fused multiply-add chain of the BLAS kernel found on this platform and
+                # is normally bit-identical too; another BLAS build may sum differently, so 1e-14 is still accepted
                 ok = same(a, b, rel=1e-14 if fn == 'visc' else 0.0)
+                if fn == 'visc' and a.startswith('num'):
+                    nv[1] += 1; nv[0] += (a == b)
                 if a == b: nb += 1
                 if not ok:
                     f1['disagreements'] += 1
@@ -691,6 +697,29 @@ def run(ctx, scale=1.0, oracle_only=False):
                 if k % 2003 == 0:
                     res.sample({'fn': fn, 'args': [float(x) for x in args], 'impl': a, 'model': b})
             f1['bit_identical'] = nb
+            f1['visc_bit_identical'] = '%d of %d' % tuple(nv)
+            # the exact fused multiply-add of the Float instance vs correctly rounded rational arithmetic
+            from fractions import Fraction
+            f4 = res.facet('fma_exact')
+            fr = ctx.rng('fma')
+            tri = []
+            for _ in range(ctx.n(3000, 60000)):
+                m = fr.random()
+                g = lambda: (fr.uniform(-10, 10) if m < 0.5 else fr.uniform(-1, 1) * 10 ** fr.uniform(-300, 290) if m < 0.8 else unbits('%016x' % fr.getrandbits(64)))
+                a_, b_, c_ = g(), g(), g()
+                if fr.random() < 0.3: c_ = -(a_ * b_) * (1 + fr.choice([0, 1e-16, -2e-16, 1e-10]))
+                if all(math.isfinite(z) for z in (a_, b_, c_)): tri.append((a_, b_, c_))
+            fo = core.run_driver('drv_c14', ['fma %s %s %s' % (bits(a_), bits(b_), bits(c_)) for a_, b_, c_ in tri])
+            for (a_, b_, c_), o in zip(tri, fo):
+                ex = Fraction(a_) * Fraction(b_) + Fraction(c_)
+                try:
+                    w = float(ex) if ex != 0 else a_ * b_ + c_
+                except OverflowError:
+                    w = math.inf if ex > 0 else -math.inf
+                f4['cases'] += 1
+                if bits(w) != o:
+                    f4['disagreements'] += 1
+                    res.disagreements.append(dict(facet='fma_exact', case={'a': repr(a_), 'b': repr(b_), 'c': repr(c_)}, model=o, impl=bits(w)))
             f2 = res.facet('power_array')
             po = out[len(reqs):len(reqs) + len(preqs)]
             wf = out[len(reqs) + len(preqs):]
